@@ -1278,6 +1278,41 @@ func exec(op string) vlib.Res {
 			tags = "nt,ttl-bounds"
 		}
 		return vlib.Res{Impl: fmt.Sprintf("ttl=%d", got), Oracle: or, Tags: tags}
+	case "ecs dedup":
+		// ecs dedup <clientA> <coptsA> <cdA> <clientB> <coptsB> <cdB>: the dedup keys of two
+		// requests for one question, each normalised by SetEdns0 as edns would
+		type side struct {
+			key uint64
+			fwd []dns.EDNS0
+			cd  bool
+		}
+		mk := func(cs, os, cds string) side {
+			c := parseClient(cs)
+			opts, has := parseOpts(os)
+			req := reqWith("dedup.c19.test.", dns.TypeA, cds == "t", opts, has, 0, false)
+			opt, _, _, _, _ := dnsutil.SetEdns0(req, curPol, c.addr(false))
+			return side{key: cache.VerifC19DedupKey(curPol, req, c.addr(false)), fwd: opt.Option, cd: cds == "t"}
+		}
+		sa, sb := mk(a[0], a[1], a[2]), mk(a[3], a[4], a[5])
+		same := sa.key == sb.key
+		or := "ok"
+		if same {
+			// sharing a flight is only right for the same CD and the same forwarded subnet (or none / a /0 on both sides)
+			sub := func(s side) string {
+				for _, o := range s.fwd {
+					if e, ok := o.(*dns.EDNS0_SUBNET); ok && e.SourceNetmask > 0 {
+						return fmt.Sprintf("%d/%d/%x", e.Family, e.SourceNetmask, []byte(e.Address))
+					}
+				}
+				return "-"
+			}
+			if sa.cd != sb.cd {
+				or = fail("dedup/shared-flight-across-cd", "")
+			} else if sub(sa) != sub(sb) {
+				or = fail("dedup/shared-flight-for-different-subnets", "%s vs %s", sub(sa), sub(sb))
+			}
+		}
+		return vlib.Res{Impl: "same=" + vlib.B(same), Oracle: or, Tags: "nt,dedup-key"}
 	case "ecs readscope":
 		opts, has := parseOpts(a[0])
 		m := new(dns.Msg)
